@@ -270,6 +270,51 @@ def check_model(case, outdir, tree):
     return drift
 
 
+def check_family_tree(doc, outdir, tree):
+    """Larger IR documents (no TLC case): the tree against the module-trie rules of spec/Modules.tla, read off the tree itself -
+    per directory the `pub use` lines follow IR order (types, errors, services), `pub mod` repeats them and ends with the
+    sub-directories in byte order; every declared module has a file or directory.  Returns drift messages."""
+    order = {}
+    n = 0
+    for t in doc.get("types", []):
+        body = t[t["type"]]
+        order[body["typeName"]["name"]] = n
+        n += 1
+    for e in doc.get("errors", []):
+        order[e["errorName"]["name"]] = n
+        n += 1
+    for sv in doc.get("services", []):
+        order[sv["serviceName"]["name"] + "Client"] = n
+        n += 1
+    drift = []
+    for path in sorted(p for p, h in tree.items() if h != "dir" and os.path.basename(p) in ("mod.rs", "lib.rs")):
+        text = open(os.path.join(outdir, path)).read()
+        uses = [(m, a or b) for m, a, b in
+                re.findall(r"^pub use self::([A-Za-z0-9_]+)::(?:\{([^}]*)\}|([A-Za-z0-9_#]+));", text, re.M | re.S)]
+        mods = mods_of(text)
+        use_mods = [m for m, _ in uses]
+        idx = []
+        for m, names in uses:
+            first = names.split(",")[0].strip()
+            if first.startswith("r#"):
+                first = first[2:]
+            idx.append(order.get(first, order.get(first.rstrip("_"), -1)))
+        if any(i < 0 for i in idx):
+            drift.append("%s: re-exported name not in the IR (%s)" % (path, [u[1].split(",")[0].strip() for u, i in zip(uses, idx) if i < 0][:3]))
+        elif idx != sorted(idx):
+            drift.append("%s: re-exports are not in IR order" % path)
+        if mods[:len(use_mods)] != use_mods:
+            drift.append("%s: `pub mod` does not repeat the re-exported modules in order" % path)
+        subs = mods[len(use_mods):]
+        if subs != sorted(subs, key=lambda x: x.encode()):
+            drift.append("%s: sub-modules %s are not in byte order" % (path, subs))
+        d = os.path.dirname(path)
+        for m in mods:
+            if os.path.join(d, m + ".rs") not in tree and os.path.join(d, m, "mod.rs") not in tree:
+                drift.append("%s declares module %s without a file" % (path, m))
+    return drift
+
+
 def generate_group(gid, ir_doc, runs, case=None, trace_first=False):
     """runs: list of (kind, argv|cfg).  All trees must be identical.  Returns dict(result)."""
     sandbox = os.path.join(BASE, gid)
@@ -293,6 +338,8 @@ def generate_group(gid, ir_doc, runs, case=None, trace_first=False):
             res["files"] = len(tree)
             if case is not None:
                 res["drift"] = check_model(case, outdir, tree)
+            else:
+                res["drift"] = check_family_tree(ir_doc, outdir, tree)
             continue
         if tree != ref[0]:
             diff = sorted(p for p in set(tree) | set(ref[0]) if tree.get(p) != ref[0].get(p))
